@@ -32,7 +32,7 @@ Qed.
 (* ------------------------------------------------------------------ *)
 Ltac ssimpl :=
   cbn [hs tree disp_of pipe_of batch clq_of cap cbcount race tr
-       with_hs with_tree with_disp with_pipes with_batch with_clqs with_cbcount with_race with_tr
+       lost with_lost with_hs with_tree with_disp with_pipes with_batch with_clqs with_cbcount with_race with_tr
        upd_h set_disp set_pipe set_clq log snap] in *.
 
 
@@ -44,13 +44,14 @@ Lemma get_wbatch s v h : get (with_batch s v) h = get s h. Proof. reflexivity. Q
 Lemma get_wclqs s v h : get (with_clqs s v) h = get s h. Proof. reflexivity. Qed.
 Lemma get_wcb s v h : get (with_cbcount s v) h = get s h. Proof. reflexivity. Qed.
 Lemma get_wrace s v h : get (with_race s v) h = get s h. Proof. reflexivity. Qed.
+Lemma get_wlost s v h : get (with_lost s v) h = get s h. Proof. reflexivity. Qed.
 Lemma get_log s e h : get (log s e) h = get s h. Proof. reflexivity. Qed.
 Lemma get_spipe s l p h : get (set_pipe s l p) h = get s h. Proof. reflexivity. Qed.
 Lemma get_sdisp s l p h : get (set_disp s l p) h = get s h. Proof. reflexivity. Qed.
 Lemma get_sclq s l p h : get (set_clq s l p) h = get s h. Proof. reflexivity. Qed.
-Ltac gs_in H := repeat first [rewrite get_wtr in H | rewrite get_wtree in H | rewrite get_wdisp in H | rewrite get_wpipes in H | rewrite get_log in H | rewrite get_spipe in H | rewrite get_sdisp in H | rewrite get_sclq in H | rewrite get_wbatch in H | rewrite get_wclqs in H | rewrite get_wcb in H | rewrite get_wrace in H].
+Ltac gs_in H := repeat first [rewrite get_wtr in H | rewrite get_wtree in H | rewrite get_wdisp in H | rewrite get_wpipes in H | rewrite get_log in H | rewrite get_spipe in H | rewrite get_sdisp in H | rewrite get_sclq in H | rewrite get_wbatch in H | rewrite get_wclqs in H | rewrite get_wcb in H | rewrite get_wrace in H | rewrite get_wlost in H].
 Ltac gs := repeat first [rewrite get_wtr | rewrite get_wtree | rewrite get_wdisp | rewrite get_wpipes
-                        | rewrite get_log | rewrite get_spipe | rewrite get_sdisp | rewrite get_sclq | rewrite get_wbatch | rewrite get_wclqs | rewrite get_wcb | rewrite get_wrace].
+                        | rewrite get_log | rewrite get_spipe | rewrite get_sdisp | rewrite get_sclq | rewrite get_wbatch | rewrite get_wclqs | rewrite get_wcb | rewrite get_wrace | rewrite get_wlost].
 
 Lemma get_upd_same s h f : h < length (hs s) -> get (upd_h s h f) h = f (get s h).
 Proof. intros; unfold get; ssimpl; apply nth_upd_same; auto. Qed.
@@ -370,7 +371,7 @@ Proof.
   destruct (_ && _); [rewrite stop_batch|]; reflexivity.
 Qed.
 
-Lemma msg_skip_batch fs s h r : batch (msg_skip fs s h r) = r.
+Lemma msg_skip_batch fs s h sig r : batch (msg_skip fs s h sig r) = r.
 Proof. unfold msg_skip. destruct fs; [reflexivity | apply msg_finish_batch]. Qed.
 
 Section Rule.
@@ -384,7 +385,7 @@ Section Rule.
   Hypothesis H_exit : forall s h sig r, P (CCb h sig) s -> batch s = (h, sig) :: r ->
     P CMid (msg_after_cb fr (log s (ECbEnd h)) h sig r).
   Hypothesis H_skip : forall s h sig r, P CMid s -> batch s = (h, sig) :: r ->
-    sig <> h_signum (get s h) -> P CMid (msg_skip fs s h r).
+    sig <> h_signum (get s h) -> P CMid (msg_skip fs s h sig r).
   (* [Rq s h]: what is known about a handle taken from the closing queue *)
   Variable Rq : state -> nat -> Prop.
   Hypothesis H_q0 : forall s l h, P CMid s -> In h (clq_of s l) -> Rq s h.
@@ -994,16 +995,24 @@ Lemma link_fields c h m x y : h_signum y = h_signum x -> h_oneshot y = h_oneshot
   link c h m x -> link c h m y.
 Proof. intros a b L. destruct m; simpl in *; rewrite ?a, ?b; auto. Qed.
 
-Lemma tinv_skip_fs fs s h sig r : TInv CMid s -> batch s = (h, sig) :: r -> sig <> h_signum (get s h) ->
-  TInv CMid (msg_skip fs s h r).
+Lemma tinv_log_drop c s h sig : TInv c s -> TInv c (log s (EDrop h sig)).
 Proof.
-  intros T Hb Hn. unfold msg_skip. destruct fs; [|eapply tinv_skip; eauto].
+  intros [A Mp Mb N O B L]. split; auto; ssimpl; simpl; rewrite ?N, ?O; auto.
+Qed.
+
+Lemma tinv_skip_fs fs s h sig r : TInv CMid s -> batch s = (h, sig) :: r -> sig <> h_signum (get s h) ->
+  TInv CMid (msg_skip fs s h sig r).
+Proof.
+  intros T Hb Hn. unfold msg_skip. apply (tinv_log_drop CMid s h sig) in T.
+  set (s0 := log s (EDrop h sig)) in *.
+  assert (Hb0 : batch s0 = (h, sig) :: r) by exact Hb.
+  destruct fs; [|eapply tinv_skip; eauto].
   destruct T as [A Mp Mb N O B L].
   split; auto.
-  - intros x. destruct (inc_disp_same s h r x) as (a&_&b). cbv zeta in *. rewrite a, b. apply A.
-  - intros m Hm. apply Mb. rewrite Hb. simpl; auto.
+  - intros x. destruct (inc_disp_same s0 h r x) as (a&_&b). cbv zeta in *. rewrite a, b. apply A.
+  - intros m Hm. apply Mb. rewrite Hb0. simpl; auto.
   - intros x Hx. rewrite len_upd_h in Hx. apply B. exact Hx.
-  - intros x. destruct (inc_disp_same s h r x) as (a&b&_). eapply link_fields; eauto.
+  - intros x. destruct (inc_disp_same s0 h r x) as (a&b&_). eapply link_fields; eauto.
 Qed.
 
 Lemma after_cb_signum fr s h sig r :
@@ -1123,7 +1132,7 @@ Qed.
 
 Lemma mode_step_idle e h : ~ is_start_of h e -> mode_step e h MIdle = MIdle.
 Proof.
-  destruct e as [o r|o|h' sg|h'|h'|l|l|d a]; simpl; auto.
+  destruct e as [o r|o|h' sg|h'|h'|l|l|d a|dh ds]; simpl; auto.
   - destruct o; simpl; auto.
     + intros N. destruct (Nat.eqb_spec h0 h); auto. congruence.
     + intros N. destruct (Nat.eqb_spec h0 h); auto. congruence.
@@ -1186,7 +1195,7 @@ Proof.
     specialize (IH t h sig N O Hm (fun e' H => Hn e' (or_intror H))).
     assert (He : ~ is_api_on h e) by (apply Hn; simpl; auto).
     cbn [app mode_of].
-    destruct e as [o r|o|h' sg|h'|h'|l|l|d a]; cbn [mode_step count_cb]; auto.
+    destruct e as [o r|o|h' sg|h'|h'|l|l|d a|dh ds]; cbn [mode_step count_cb]; auto.
     + destruct o; simpl in He; cbn [mode_step]; auto.
       * destruct (Nat.eqb_spec h0 h); [contradiction|auto].
       * destruct (Nat.eqb_spec h0 h); [contradiction|auto].
@@ -1667,7 +1676,8 @@ Proof.
   assert (G1 : get s1 y = h_set_fired (get s y)) by (apply get_upd_same; auto).
   assert (L1 : length (hs s1) = length (hs s)) by apply len_upd_h.
   change (h_loop (get s y)) with (h_loop (h_set_fired (get s y))). rewrite <- G1.
-  destruct (_ <? _); auto.
+  destruct (_ <? _).
+  2:{ eapply score_frame with (s := s1); auto; try reflexivity. intros; apply same_acc_refl. }
   set (l := h_loop (get s1 y)).
   set (s2 := set_pipe s1 l (pipe_of s1 l ++ [(y, sig)])).
   destruct C1 as [T So C' Q P B N Z].
@@ -1985,7 +1995,8 @@ Proof.
     auto using sinv_api, sinv_log, sinv_take, sinv_clq_nil, sinv_requeue, sinv_closed, sinv_init0.
   - intros; apply sinv_cb_enter; auto.
   - intros; eapply sinv_after_cb; eauto. apply sinv_log; auto.
-  - intros; unfold msg_skip; destruct fs; [eapply sinv_pop | eapply sinv_finish]; eauto.
+  - intros s h sig r I Hb _. unfold msg_skip. apply (sinv_log s (EDrop h sig)) in I.
+    destruct fs; [eapply sinv_pop | eapply sinv_finish]; eauto.
   - intros s l h [C K] Hh. eapply (s_clq _ C); eauto.
   - intros s h' h Hc. gs. destruct (Nat.eq_dec h' h) as [->|Hn].
     + destruct (Nat.lt_ge_cases h (length (hs s))).
@@ -2398,9 +2409,11 @@ Proof.
   - intros s h sig r [I D] _ _. split; [apply sinv_cb_enter; auto | deq D].
   - intros s h sig r [I D] Hb. eapply pd_after_cb with (c := CMid); [|exact Hb].
     split; [apply sinv_log; auto | apply dinv_log; auto].
-  - intros s h sig r P Hb _. unfold msg_skip. destruct fs; [|eapply pd_finish; eauto].
-    destruct P as [I D]. split; [eapply sinv_pop; eauto|].
-    apply dinv_upd; [intros; repeat split|]. deq D.
+  - intros s h sig r [I D] Hb _. unfold msg_skip.
+    assert (P0 : PD CMid (log s (EDrop h sig))) by (split; [apply sinv_log; auto | apply dinv_log; auto]).
+    destruct fs; [|eapply pd_finish; eauto].
+    destruct P0 as [I0 D0]. split; [eapply sinv_pop; eauto|].
+    apply dinv_upd; [intros; repeat split|]. deq D0.
   - intros s l h [[C K] D] Hh. eapply (s_clq _ C); eauto.
   - auto.
   - intros s h' h Hc. gs. destruct (Nat.eq_dec h' h) as [->|Hn].
@@ -2747,7 +2760,7 @@ Proof.
     cbv zeta in e. rewrite e. simpl. rewrite script_no_cb. unfold cb_enter. ssimpl. simpl.
     destruct (h =? h'); lia.
   - split; [|apply msg_skip_batch]. unfold msg_skip. destruct fs; [simpl; lia|].
-    destruct (finish_spec s h r) as (_&_&_&_&e&_). cbv zeta in e. rewrite e. simpl. lia.
+    destruct (finish_spec (log s (EDrop h sig)) h r) as (_&_&_&_&e&_). cbv zeta in e. rewrite e. simpl. lia.
 Qed.
 
 (* ------------------------------------------------------------------ *)
@@ -2761,11 +2774,13 @@ Theorem stale_message_keeps_handle fx fr beh s h sig r :
   let s' := process_msg fx true fr beh s (h, sig) r in
   (forall x, h_signum (get s' x) = h_signum (get s x) /\ h_oneshot (get s' x) = h_oneshot (get s x) /\
              h_active (get s' x) = h_active (get s x)) /\
-  tree s' = tree s /\ disp_of s' = disp_of s /\ tr s' = tr s.
+  tree s' = tree s /\ disp_of s' = disp_of s /\ tr s' = EDrop h sig :: tr s.
 Proof.
   intros Hn. cbv zeta. unfold process_msg. cbn [fst snd].
   destruct (Nat.eqb_spec sig (h_signum (get s h))); [contradiction|].
-  unfold msg_skip. split; [|repeat split]. intros x. apply inc_disp_same.
+  unfold msg_skip. split; [|repeat split]. intros x.
+  destruct (inc_disp_same (log s (EDrop h sig)) h r x) as (a&b&c). cbv zeta in *.
+  gs_in a. gs_in b. gs_in c. auto.
 Qed.
 
 (* fr: a handle that its own callback has started on another signal keeps that watch when the
@@ -2841,7 +2856,7 @@ Lemma mode_sig_nonzero t x :
 Proof.
   induction t as [|e t IH]; simpl; [repeat split; discriminate|].
   destruct IH as (a&b&d).
-  destruct e as [o r|o|h' s'|h'|h'|l|l|dd aa]; simpl; auto.
+  destruct e as [o r|o|h' s'|h'|h'|l|l|dd aa|dh ds]; simpl; auto.
   - destruct o; simpl; auto.
     + destruct (h =? x); auto. unfold mode_start. destruct (Nat.eqb_spec sig 0); auto.
       destruct (negb _); [repeat split; discriminate|].
@@ -2959,9 +2974,12 @@ Proof.
       rewrite f4; auto. right. split; auto. rewrite Lk. intros ->.
       simpl in I. apply (alias_ok_head (tr s) h sig Al0 I). exact Em.
     + rewrite f1 by auto. gs. apply (olive_of_link (CCb h sig) s ltac:(discriminate) T x sg Hm).
-  - intros s h sig r (T&I&OL) Hb Hs. split; [eapply tinv_skip_fs; eauto|]. split; auto.
-    intros Al. destruct (OL Al) as [O Lv]. split; auto.
-    unfold msg_skip. intros x sg Hm. destruct (inc_disp_same s h r x) as (a&_). cbv zeta in a. rewrite a. auto.
+  - intros s h sig r (T&I&OL) Hb Hs. split; [eapply tinv_skip_fs; eauto|].
+    unfold msg_skip. split; [simpl in *; auto|].
+    intros Al. change (alias_ok (EDrop h sig :: tr s) = true) in Al. apply alias_ok_tail in Al.
+    destruct (OL Al) as [O Lv]. split; [|simpl; auto].
+    intros x sg Hm. change (mode_of (tr s) x = MOne sg false) in Hm.
+    destruct (inc_disp_same (log s (EDrop h sig)) h r x) as (a&_). cbv zeta in a. rewrite a. gs. auto.
   - intros s l (T&I&OL). split; [apply tinv_clq; auto|]. split; auto.
   - intros s l h (T&I&OL) _. split; [apply tinv_clq; auto|]. split; auto.
   - intros s h (T&I&OL) _ Hd. split; [apply tinv_closed; auto|]. split; [simpl in *; auto|].
@@ -3067,3 +3085,472 @@ Theorem oneshot_rearm_same_signal_in_cb :
   h_active (get s 0) = false /\ count_cb 0 (tr s) = 1 /\ disp_of s 10 = Default /\
   alias_ok (tr s) = short.
 Proof. intros fx fs fr short; destruct fx, fs, fr, short; vm_compute; intuition. Qed.
+
+(* ------------------------------------------------------------------ *)
+(* 12. every watcher once, on whole traces                              *)
+(* ------------------------------------------------------------------ *)
+(* signals delivered to handle h (newest first): the kernel ran the handler for sig while the
+   observer knew h to be watching sig (deliveries happen between API calls, where the observer's
+   view is exact) *)
+Fixpoint delivered (t : list event) (h : nat) : list nat :=
+  match t with
+  | [] => []
+  | EOp (ORaise sig) r :: t' =>
+      if (r =? 0)%Z && cb_allowed (mode_of t' h) sig then sig :: delivered t' h else delivered t' h
+  | _ :: t' => delivered t' h
+  end.
+
+(* messages of h consumed by its loop (newest first): with a callback (ECb) or without (EDrop) *)
+Fixpoint consumed (t : list event) (h : nat) : list nat :=
+  match t with
+  | [] => []
+  | ECb h' sig :: t' => if h' =? h then sig :: consumed t' h else consumed t' h
+  | EDrop h' sig :: t' => if h' =? h then sig :: consumed t' h else consumed t' h
+  | _ :: t' => consumed t' h
+  end.
+
+(* the signals of h's messages still in flight, oldest first *)
+Definition psig (s : state) (h : nat) : list nat :=
+  map snd (filter (fun m => fst m =? h) (batch s ++ pipe_of s (h_loop (get s h)))).
+
+Definition inflight (c : ctx) (h : nat) : nat :=
+  match c with CCb h' _ => if h' =? h then 1 else 0 | _ => 0 end.
+
+Definition QE (c : ctx) (s : state) : Prop :=
+  lost s = 0 -> forall h, delivered (tr s) h = rev (skipn (inflight c h) (psig s h)) ++ consumed (tr s) h.
+
+Definition CB (c : ctx) (s : state) : Prop :=
+  match c with CCb h sig => exists r, batch s = (h, sig) :: r | _ => True end.
+
+Definition PE (c : ctx) (s : state) : Prop := TInv c s /\ SInv s /\ CB c s /\ QE c s.
+
+Lemma psig_frame s s' h :
+  pipe_of s' = pipe_of s -> batch s' = batch s -> h_loop (get s' h) = h_loop (get s h) ->
+  psig s' h = psig s h.
+Proof. unfold psig. intros -> -> ->. reflexivity. Qed.
+
+(* --- the ghost counter only moves in the handler --- *)
+Lemma stop_lost s h : lost (sig_stop s h) = lost s.
+Proof.
+  unfold sig_stop. destruct (_ =? 0); auto. ssimpl.
+  destruct (first_handle _ _); [destruct (_ && _)|]; reflexivity.
+Qed.
+
+Lemma start_lost fx s h sig os : lost (fst (sig_start fx s h sig os)) = lost s.
+Proof.
+  unfold sig_start. destruct (sig =? 0); auto. destruct (sig =? _); auto. rewrite stop_if.
+  destruct (_ && negb _); cbn [fst]; [apply stop_lost|].
+  ssimpl. destruct (fired_oneshot_on _ _); ssimpl;
+    (destruct (first_handle (sig_stop s h) sig) as [f|]; [destruct (negb os && _)|]); ssimpl; apply stop_lost.
+Qed.
+
+Lemma close_lost s h : lost (sig_close s h) = lost s.
+Proof. unfold sig_close. ssimpl. rewrite stop_lost. reflexivity. Qed.
+
+Lemma finish_lost s h r : lost (msg_finish s h r) = lost s.
+Proof. unfold msg_finish. destruct (h_oneshot _); [rewrite stop_lost|]; reflexivity. Qed.
+
+Lemma after_cb_lost fr s h sig r : lost (msg_after_cb fr s h sig r) = lost s.
+Proof.
+  unfold msg_after_cb. destruct fr; [|apply finish_lost]. destruct (_ && _); [rewrite stop_lost|]; reflexivity.
+Qed.
+
+Lemma skip_lost fs s h sig r : lost (msg_skip fs s h sig r) = lost s.
+Proof. unfold msg_skip. destruct fs; [reflexivity | rewrite finish_lost; reflexivity]. Qed.
+
+Lemma write_msg_lost_mono sig s y : lost s <= lost (write_msg sig s y).
+Proof. unfold write_msg. destruct (_ <? _); ssimpl; lia. Qed.
+
+Lemma fold_write_lost_mono sig ys : forall s, lost s <= lost (fold_left (write_msg sig) ys s).
+Proof.
+  induction ys as [|y ys IH]; intros; simpl; auto. etransitivity; [apply write_msg_lost_mono | apply IH].
+Qed.
+
+Lemma filter_app_snd h (a b : list msg) :
+  map snd (filter (fun m => fst m =? h) (a ++ b)) =
+  map snd (filter (fun m => fst m =? h) a) ++ map snd (filter (fun m => fst m =? h) b).
+Proof. rewrite filter_app, map_app. reflexivity. Qed.
+
+(* a write that found room: the message goes to the tail of the pipe of y's loop *)
+Lemma write_msg_psig sig s y : y < length (hs s) -> lost (write_msg sig s y) = lost s ->
+  forall x, psig (write_msg sig s y) x = psig s x ++ (if x =? y then [sig] else []).
+Proof.
+  intros Hl Hlost x. unfold write_msg in *.
+  set (s1 := upd_h s y h_set_fired) in *.
+  assert (G1 : forall z, h_loop (get s1 z) = h_loop (get s z)).
+  { intros z. unfold s1. destruct (Nat.eq_dec y z) as [->|]; [rewrite get_upd_same by auto; reflexivity | rewrite get_upd_other by auto; reflexivity]. }
+  assert (Ey : h_loop (get s y) = h_loop (get s1 y)) by (symmetry; apply G1).
+  change (pipe_of s1) with (pipe_of s) in *. change (cap s1) with (cap s) in *.
+  destruct (length (pipe_of s (h_loop (get s y))) <? cap s).
+  2:{ exfalso. unfold s1 in Hlost. cbn in Hlost. lia. }
+  set (l := h_loop (get s y)) in *.
+  set (s2 := set_pipe s1 l (pipe_of s l ++ [(y, sig)])).
+  assert (G2 : forall z, h_loop (get (upd_h s2 y h_inc_caught) z) = h_loop (get s z)).
+  { intros z. rewrite <- G1. destruct (Nat.eq_dec y z) as [->|].
+    - rewrite get_upd_same by (change (hs s2) with (hs s1); unfold s1; rewrite len_upd_h; auto). reflexivity.
+    - rewrite get_upd_other by auto. reflexivity. }
+  unfold psig. rewrite G2.
+  change (batch (upd_h s2 y h_inc_caught)) with (batch s).
+  change (pipe_of (upd_h s2 y h_inc_caught)) with (fupd (pipe_of s) l (pipe_of s l ++ [(y, sig)])).
+  unfold fupd. destruct (Nat.eqb_spec (h_loop (get s x)) l) as [El|El].
+  - rewrite El. rewrite !filter_app_snd. rewrite <- app_assoc. f_equal. f_equal. simpl.
+    rewrite (Nat.eqb_sym y x). destruct (x =? y); reflexivity.
+  - destruct (Nat.eqb_spec x y) as [->|]; [exfalso; apply El; reflexivity | rewrite app_nil_r; reflexivity].
+Qed.
+
+Lemma fold_write_psig sig ys : forall s, NoDup ys -> (forall y, In y ys -> y < length (hs s)) ->
+  lost (fold_left (write_msg sig) ys s) = lost s ->
+  forall x, psig (fold_left (write_msg sig) ys s) x = psig s x ++ (if existsb (Nat.eqb x) ys then [sig] else []).
+Proof.
+  induction ys as [|y ys IH]; intros s Nd Hv Hl x; simpl; [rewrite app_nil_r; reflexivity|].
+  inversion Nd as [|? ? Ny Nd']; subst.
+  assert (L1 : lost (write_msg sig s y) = lost s).
+  { pose proof (write_msg_lost_mono sig s y). pose proof (fold_write_lost_mono sig ys (write_msg sig s y)).
+    simpl in Hl. lia. }
+  rewrite IH; auto.
+  - rewrite write_msg_psig by (auto; apply Hv; simpl; auto). rewrite <- app_assoc. f_equal.
+    destruct (Nat.eqb_spec x y) as [->|Hn]; simpl; auto.
+    destruct (existsb (Nat.eqb y) ys) eqn:E; auto.
+    apply existsb_exists in E. destruct E as (z&a&b). apply Nat.eqb_eq in b. subst. contradiction.
+  - intros z Hz. rewrite write_msg_len. apply Hv; simpl; auto.
+  - simpl in Hl. congruence.
+Qed.
+
+(* in a synchronised context the observer's "watching sig" is membership in the tree for sig *)
+Lemma watching_iff_entry c s h sig : c <> CMid -> sig <> 0 -> TInv c s -> SInv s ->
+  cb_allowed (mode_of (tr s) h) sig = true <-> (In h (tree s) /\ h_signum (get s h) = sig).
+Proof.
+  intros Hc Hs T [C K]. pose proof (t_link _ _ T h) as L. rewrite (s_tree _ C).
+  destruct (mode_of (tr s) h) as [|sg|sg k]; simpl in *.
+  - split; [discriminate|]. intros [a b]. congruence.
+  - destruct L as [L|[_ L]]; [|contradiction]. rewrite Nat.eqb_eq. split.
+    + intros E. split; congruence.
+    + intros [_ E]. congruence.
+  - destruct L as (_&[L|[_ L]]&_); [|contradiction]. rewrite Nat.eqb_eq. split.
+    + intros E. split; congruence.
+    + intros [_ E]. congruence.
+Qed.
+
+Lemma rev_skipn_snoc {A} k (p : list A) x : k <= length p ->
+  rev (skipn k (p ++ [x])) = x :: rev (skipn k p).
+Proof.
+  intros H. rewrite skipn_app. replace (k - length p) with 0 by lia. simpl.
+  rewrite rev_app_distr. reflexivity.
+Qed.
+
+Lemma delivered_snap d a t h : delivered (ESnap d a :: t) h = delivered t h.
+Proof. reflexivity. Qed.
+Lemma consumed_snap d a t h : consumed (ESnap d a :: t) h = consumed t h.
+Proof. reflexivity. Qed.
+
+(* psig of a handle inside its own callback starts with the message being handled *)
+Lemma psig_head s h sig r : batch s = (h, sig) :: r ->
+  psig s h = sig :: map snd (filter (fun m => fst m =? h) (r ++ pipe_of s (h_loop (get s h)))).
+Proof. intros Hb. unfold psig. rewrite Hb. simpl. rewrite Nat.eqb_refl. reflexivity. Qed.
+
+Lemma psig_pop_other s h sig r x : batch s = (h, sig) :: r -> x <> h ->
+  psig s x = map snd (filter (fun m => fst m =? x) (r ++ pipe_of s (h_loop (get s x)))).
+Proof.
+  intros Hb Hn. unfold psig. rewrite Hb. simpl. destruct (Nat.eqb_spec h x); [congruence|reflexivity].
+Qed.
+
+Lemma filter_none {A} (f : A -> bool) (l : list A) : (forall x, In x l -> f x = false) -> filter f l = [].
+Proof.
+  induction l as [|x l IH]; intros H; simpl; auto. rewrite (H x) by (simpl; auto). apply IH. intros; apply H; simpl; auto.
+Qed.
+
+(* no message mentions a handle that does not exist *)
+Lemma psig_nil_oob s st h : SCore s -> length (hs s) <= h -> pipe_of st = pipe_of s -> batch st = batch s ->
+  psig st h = [].
+Proof.
+  intros C Hh Ep Eb. unfold psig. rewrite Ep, Eb. rewrite filter_none; auto.
+  intros m Hm. apply Nat.eqb_neq. intros E. apply in_app_iff in Hm. destruct Hm as [Hm|Hm].
+  - apply (s_batchv _ C) in Hm. lia.
+  - apply (s_pipe _ C) in Hm. lia.
+Qed.
+
+Lemma psig_same s s1 : pipe_of s1 = pipe_of s -> batch s1 = batch s ->
+  (forall x, h_loop (get s1 x) = h_loop (get s x)) -> forall h, psig s1 h = psig s h.
+Proof. intros Ep Eb El h. apply psig_frame; auto. Qed.
+
+Lemma stop_loop s h x : h_loop (get (sig_stop s h) x) = h_loop (get s x).
+Proof.
+  destruct (Nat.eq_dec h x) as [<-|Hn]; [|rewrite stop_get_other; auto].
+  destruct (stop_fields s h) as (a&_). exact a.
+Qed.
+
+Lemma existsb_eqb_in x l : existsb (Nat.eqb x) l = true <-> In x l.
+Proof.
+  rewrite existsb_exists. split.
+  - intros (y&a&b). apply Nat.eqb_eq in b. subst; auto.
+  - intros H. exists x. split; auto. apply Nat.eqb_refl.
+Qed.
+
+Lemma pe_api fx c s o : c <> CMid -> PE c s -> PE c (api_snap fx s o).
+Proof.
+  intros Hc (T&I&B&Q).
+  split; [apply tinv_api; auto|]. split; [apply sinv_api; auto|].
+  split.
+  { destruct c; simpl in *; auto. unfold api_snap. ssimpl. rewrite api_batch. exact B. }
+  unfold api_snap.
+  (* the snapshot changes nothing *)
+  assert (Hsn : forall s1, QE c s1 -> QE c (snap s1)).
+  { intros s1 Q1 Hl h. change (lost (snap s1)) with (lost s1) in Hl. specialize (Q1 Hl h).
+    cbn [snap log tr with_tr]. rewrite delivered_snap, consumed_snap.
+    rewrite (psig_frame s1 (snap s1)) by reflexivity. exact Q1. }
+  apply Hsn.
+  (* every operation but a delivery: an event that neither delivers nor consumes, same messages *)
+  assert (Hframe : forall s1 e, lost s1 = lost s ->
+            (forall h, delivered (e :: tr s1) h = delivered (tr s) h) ->
+            (forall h, consumed (e :: tr s1) h = consumed (tr s) h) ->
+            (forall h, psig s1 h = psig s h) -> QE c (log s1 e)).
+  { intros s1 e El Ed Ec Ep Hl h. change (lost (log s1 e)) with (lost s1) in Hl.
+    cbn [log tr with_tr]. rewrite Ed, Ec. rewrite (psig_frame s1 (log s1 e)) by reflexivity. rewrite Ep.
+    apply Q. congruence. }
+  destruct I as [C K].
+  destruct o; cbn [api].
+  - (* OInit *)
+    apply Hframe; try reflexivity. intros h.
+    set (s' := with_hs s (hs s ++ [new_handle l])).
+    destruct (Nat.lt_ge_cases h (length (hs s))) as [Hv|Hv].
+    + apply psig_frame; try reflexivity. unfold s'. rewrite get_app_old; auto.
+    + rewrite (psig_nil_oob s s' h), (psig_nil_oob s s h); auto.
+  - (* OStart *)
+    destruct (usable s h) eqn:U; [|apply Hframe; reflexivity].
+    apply usable_spec in U. destruct U as [Ul Uc].
+    pose proof (start_spec fx s h sig false) as S. pose proof (start_lost fx s h sig false) as Lo.
+    destruct (sig_start fx s h sig false) as [s1 r]. cbn [fst snd] in *.
+    destruct S as [S0 S1 S2|S0 S1 S2 S3|S0 S1 S2 S3 S4|S0 S1 S2 S3 S4 S5 S6 S7 S8 S9]; subst;
+      apply Hframe; auto; rewrite ?stop_tr, ?S7; try reflexivity.
+    + apply psig_same; auto using stop_pipe, stop_batch. intros; apply stop_loop.
+    + apply psig_same; auto. intros x. destruct (Nat.eq_dec x h) as [->|Hn]; [rewrite S5 by auto; reflexivity | rewrite S3; auto].
+  - (* OStartOneshot *)
+    destruct (usable s h) eqn:U; [|apply Hframe; reflexivity].
+    apply usable_spec in U. destruct U as [Ul Uc].
+    pose proof (start_spec fx s h sig true) as S. pose proof (start_lost fx s h sig true) as Lo.
+    destruct (sig_start fx s h sig true) as [s1 r]. cbn [fst snd] in *.
+    destruct S as [S0 S1 S2|S0 S1 S2 S3|S0 S1 S2 S3 S4|S0 S1 S2 S3 S4 S5 S6 S7 S8 S9]; subst;
+      apply Hframe; auto; rewrite ?stop_tr, ?S7; try reflexivity.
+    + apply psig_same; auto using stop_pipe, stop_batch. intros; apply stop_loop.
+    + apply psig_same; auto. intros x. destruct (Nat.eq_dec x h) as [->|Hn]; [rewrite S5 by auto; reflexivity | rewrite S3; auto].
+  - (* OStop *)
+    destruct (usable s h); apply Hframe; rewrite ?stop_tr; try reflexivity.
+    + apply stop_lost.
+    + apply psig_same; auto using stop_pipe, stop_batch. intros; apply stop_loop.
+  - (* OClose *)
+    destruct (usable s h) eqn:U; [|apply Hframe; reflexivity].
+    apply usable_spec in U. destruct U as [Ul Uc].
+    destruct (close_misc s h) as (c1&c2&c3&c4).
+    apply Hframe; rewrite ?c2; try reflexivity.
+    + apply close_lost.
+    + apply psig_same; auto. intros x. destruct (Nat.eq_dec h x) as [<-|Hn].
+      * destruct (close_get_same s h Ul) as (_&_&_&a&_). exact a.
+      * rewrite close_get_other; auto.
+  - (* ORaise *)
+    destruct (Nat.eqb_spec sig 0) as [E0|E0]; [apply Hframe; reflexivity|].
+    pose proof (deliver_misc s sig) as D. cbv zeta in D. destruct D as (d1&d2&d3&d4&d5&d6).
+    unfold deliver in *. destruct (disp_of s sig) as [|rh] eqn:Ed; cbn [fst snd] in *.
+    { apply Hframe; reflexivity. }
+    intros Hl h. change (lost (log (handler (if rh then set_disp s sig Default else s) sig) (EOp (ORaise sig) 0%Z)))
+      with (lost (handler (if rh then set_disp s sig Default else s) sig)) in Hl.
+    cbn [log tr with_tr]. rewrite d2.
+    rewrite (psig_frame (handler (if rh then set_disp s sig Default else s) sig) (log _ _)) by reflexivity.
+    cbn [delivered consumed]. change ((0 =? 0)%Z) with true. cbn [andb].
+    unfold handler in *.
+    set (s0 := if rh then set_disp s sig Default else s) in *.
+    assert (G0 : forall x, get s0 x = get s x) by (intros; unfold s0; destruct rh; reflexivity).
+    assert (P0 : forall x, psig s0 x = psig s x) by (intros; unfold s0; destruct rh; reflexivity).
+    assert (L0 : lost s0 = lost s) by (unfold s0; destruct rh; reflexivity).
+    assert (T0 : targets s0 sig = targets s sig) by (apply targets_hs_eq; unfold s0; destruct rh; reflexivity).
+    assert (Ls : lost s = 0) by (pose proof (fold_write_lost_mono sig (targets s0 sig) s0); lia).
+    rewrite T0 in *.
+    rewrite fold_write_psig.
+    2:{ apply sorted_sub_nodup. apply (s_sorted _ C). }
+    2:{ intros y Hy. apply targets_in in Hy. destruct Hy as [_ Hy].
+        assert (y < length (hs s)) by (apply signum_valid; congruence). unfold s0; destruct rh; auto. }
+    2:{ lia. }
+    rewrite P0. specialize (Q Ls h).
+    assert (W : cb_allowed (mode_of (tr s) h) sig = existsb (Nat.eqb h) (targets s sig)).
+    { apply eq_true_iff_eq. rewrite existsb_eqb_in.
+      rewrite (watching_iff_entry c s h sig Hc E0 T (conj C K)). split.
+      - intros [a b]. apply targets_complete; auto. apply (s_sorted _ C).
+      - apply targets_in. }
+    rewrite W. destruct (existsb (Nat.eqb h) (targets s sig)).
+    + rewrite rev_skipn_snoc; [simpl; rewrite Q; reflexivity|].
+      unfold inflight. destruct c as [| |h0 g0]; try lia. destruct (Nat.eqb_spec h0 h) as [->|]; [|lia].
+      simpl in B. destruct B as (r&Hb). rewrite (psig_head s h g0 r Hb). simpl. lia.
+    + rewrite app_nil_r. exact Q.
+  - (* ORun inside a callback: refused *)
+    apply Hframe; reflexivity.
+Qed.
+
+Lemma qe_same_trace c c' s s' :
+  tr s' = tr s -> lost s' = lost s -> (forall h, inflight c' h = inflight c h) ->
+  (forall h, psig s' h = psig s h) -> QE c s -> QE c' s'.
+Proof. intros Et El Ei Ep Q Hl h. rewrite Et, Ei, Ep. apply Q. congruence. Qed.
+
+(* logging an event that neither delivers nor consumes *)
+Lemma qe_log c c' s e :
+  (forall h, delivered (e :: tr s) h = delivered (tr s) h) ->
+  (forall h, consumed (e :: tr s) h = consumed (tr s) h) ->
+  (forall h, inflight c' h = inflight c h) -> QE c s -> QE c' (log s e).
+Proof.
+  intros Ed Ec Ei Q Hl h. cbn [log tr with_tr]. rewrite Ed, Ec, Ei.
+  rewrite (psig_frame s (log s e)) by reflexivity. apply Q. exact Hl.
+Qed.
+
+Lemma after_cb_loop fr s h sig r x : h_loop (get (msg_after_cb fr s h sig r) x) = h_loop (get s x).
+Proof.
+  unfold msg_after_cb, msg_finish.
+  assert (E : h_loop (get (upd_h (with_batch s r) h h_inc_dispatched) x) = h_loop (get s x)).
+  { destruct (Nat.eq_dec h x) as [<-|Hn]; [|rewrite get_upd_other by auto; reflexivity].
+    destruct (inc_disp_fields s h r) as (a&_). exact a. }
+  destruct fr; [destruct (_ && _) | destruct (h_oneshot _)]; rewrite ?stop_loop; exact E.
+Qed.
+
+Lemma after_cb_pipe fr s h sig r : pipe_of (msg_after_cb fr s h sig r) = pipe_of s.
+Proof. destruct (after_cb_spec fr s h sig r) as (_&_&_&_&_&e&_). exact e. Qed.
+
+Lemma finish_loop s h r x : h_loop (get (msg_finish s h r) x) = h_loop (get s x).
+Proof. apply (after_cb_loop false s h 0 r x). Qed.
+
+Theorem pe_run fx fs fr beh fuel c ops : PE CTop (run fx fs fr beh fuel (init c) ops).
+Proof.
+  apply (rule_run fx fs fr beh PE) with (Rq := fun s h => h_closing (get s h) = true).
+  - intros; apply pe_api; auto.
+  - (* begin *)
+    intros s l (T&I&B&Q). split; [apply tinv_begin; auto|]. split; [apply sinv_log; auto|]. split; [exact Logic.I|].
+    apply qe_log with (c := CTop); auto.
+  - (* take a batch *)
+    intros s l (T&I&B&Q) Hb. split; [apply tinv_take; auto|]. split; [apply sinv_take; auto|]. split; [exact Logic.I|].
+    destruct I as [C K]. eapply qe_same_trace with (s := s) (c := CMid); try reflexivity; auto.
+    intros h. unfold take_batch, psig. gs. ssimpl. rewrite Hb. simpl. unfold fupd.
+    destruct (Nat.eqb_spec (h_loop (get s h)) l) as [->|Hn].
+    + rewrite firstn_skipn. reflexivity.
+    + rewrite filter_app_snd. rewrite (filter_none _ (firstn batch_size (pipe_of s l))); auto.
+      intros m Hm. apply Nat.eqb_neq. intros E. apply In_firstn in Hm. apply (s_pipe _ C) in Hm.
+      destruct Hm as [a _]. congruence.
+  - (* a callback is entered *)
+    intros s h sig r (T&I&B&Q) Hb Hs. split; [eapply tinv_enter; eauto|]. split; [apply sinv_cb_enter; auto|].
+    split; [exists r; exact Hb|].
+    intros Hl x. change (lost (cb_enter s h sig)) with (lost s) in Hl. specialize (Q Hl x).
+    change (tr (cb_enter s h sig)) with (ESnap (map (disp_of s) watch_sigs) (map h_active (hs s)) :: ECb h sig :: tr s).
+    rewrite delivered_snap, consumed_snap.
+    rewrite (psig_frame s (cb_enter s h sig)) by reflexivity.
+    cbn [delivered consumed inflight]. simpl in Q.
+    destruct (Nat.eqb_spec h x) as [Ex|Hn]; [subst x|exact Q].
+    rewrite (psig_head s h sig r Hb) in *. simpl. simpl in Q. rewrite Q.
+    rewrite <- app_assoc. reflexivity.
+  - (* the callback returns *)
+    intros s h sig r (T&I&B&Q) Hb.
+    split; [eapply tinv_exit; eauto|]. split; [eapply sinv_after_cb; eauto; apply sinv_log; auto|]. split; [exact Logic.I|].
+    intros Hl x. rewrite after_cb_lost in Hl. change (lost (log s (ECbEnd h))) with (lost s) in Hl.
+    specialize (Q Hl x).
+    destruct (after_cb_spec fr (log s (ECbEnd h)) h sig r) as (_&_&_&_&f5&_). cbv zeta in f5. rewrite f5.
+    cbn [log tr with_tr delivered consumed inflight].
+    assert (Ps : psig (msg_after_cb fr (log s (ECbEnd h)) h sig r) x =
+                 map snd (filter (fun m => fst m =? x) (r ++ pipe_of s (h_loop (get s x))))).
+    { unfold psig. rewrite after_cb_loop, after_cb_pipe, msg_after_cb_batch. gs. reflexivity. }
+    rewrite Ps. simpl in Q. destruct (Nat.eqb_spec h x) as [Ex|Hn]; [subst x|].
+    + rewrite (psig_head s h sig r Hb) in Q. simpl in Q. exact Q.
+    + rewrite (psig_pop_other s h sig r x Hb) in Q by auto. exact Q.
+  - (* a message without callback *)
+    intros s h sig r (T&I&B&Q) Hb Hs.
+    split; [eapply tinv_skip_fs; eauto|]. split.
+    { unfold msg_skip. apply (sinv_log s (EDrop h sig)) in I. destruct fs; [eapply sinv_pop | eapply sinv_finish]; eauto. }
+    split; [exact Logic.I|].
+    intros Hl x. rewrite skip_lost in Hl. specialize (Q Hl x).
+    assert (Et : tr (msg_skip fs s h sig r) = EDrop h sig :: tr s).
+    { unfold msg_skip. destruct fs; [reflexivity|].
+      destruct (finish_spec (log s (EDrop h sig)) h r) as (_&_&_&_&f5&_). exact f5. }
+    assert (Ps : psig (msg_skip fs s h sig r) x =
+                 map snd (filter (fun m => fst m =? x) (r ++ pipe_of s (h_loop (get s x))))).
+    { unfold msg_skip, psig. destruct fs.
+      - destruct (Nat.eq_dec h x) as [<-|Hn].
+        + destruct (inc_disp_fields (log s (EDrop h sig)) h r) as (a&_). cbv zeta in a. rewrite a. reflexivity.
+        + rewrite get_upd_other by auto. reflexivity.
+      - rewrite finish_loop, msg_finish_batch.
+        destruct (finish_spec (log s (EDrop h sig)) h r) as (_&_&_&_&_&f6&_). cbv zeta in f6. rewrite f6. reflexivity. }
+    rewrite Et, Ps. cbn [delivered consumed inflight]. simpl in Q.
+    destruct (Nat.eqb_spec h x) as [Ex|Hn]; [subst x|].
+    + rewrite (psig_head s h sig r Hb) in Q. simpl in Q. rewrite Q. rewrite <- app_assoc. reflexivity.
+    + rewrite (psig_pop_other s h sig r x Hb) in Q by auto. exact Q.
+  - intros s l h (_&[C K]&_) Hh. eapply (s_clq _ C); eauto.
+  - auto.
+  - intros s h' h Hc. gs. destruct (Nat.eq_dec h' h) as [->|Hn].
+    + destruct (Nat.lt_ge_cases h (length (hs s))).
+      * rewrite get_upd_same by auto. auto.
+      * rewrite upd_h_oob by auto. auto.
+    + rewrite get_upd_other by auto. auto.
+  - intros s l (T&I&B&Q). split; [apply tinv_clq; auto|]. split; [apply sinv_clq_nil; auto|]. split; [exact Logic.I|].
+    eapply qe_same_trace with (s := s) (c := CMid); try reflexivity; auto.
+  - intros s l h (T&I&B&Q) R. split; [apply tinv_clq; auto|]. split; [apply sinv_requeue; auto|]. split; [exact Logic.I|].
+    eapply qe_same_trace with (s := s) (c := CMid); try reflexivity; auto.
+  - intros s h (T&I&B&Q) R Hd. split; [apply tinv_closed; auto|]. split; [apply sinv_closed; auto|]. split; [exact Logic.I|].
+    apply qe_log with (c := CMid); auto.
+    eapply qe_same_trace with (s := s) (c := CMid); try reflexivity; auto.
+    intros x. apply psig_frame; try reflexivity.
+    destruct (Nat.eq_dec h x) as [<-|Hn]; [|rewrite get_upd_other by auto; reflexivity].
+    destruct (Nat.lt_ge_cases h (length (hs s))); [rewrite get_upd_same by auto | rewrite upd_h_oob by auto]; reflexivity.
+  - intros s l (T&I&B&Q). split; [apply tinv_end; auto|]. split; [apply sinv_snap, sinv_log; auto|]. split; [exact Logic.I|].
+    intros Hl x. change (lost (snap (log s (ERunEnd l)))) with (lost s) in Hl. specialize (Q Hl x).
+    cbn [snap log tr with_tr]. rewrite delivered_snap, consumed_snap.
+    rewrite (psig_frame s (snap (log s (ERunEnd l)))) by reflexivity. exact Q.
+  - split; [apply tinv_init|]. split; [apply sinv_init0|]. split; [exact Logic.I|]. intros _ h. reflexivity.
+  - reflexivity.
+Qed.
+
+(* C13_every_watcher_once on whole traces.  For every script whose run never found a pipe full:
+   the signals delivered to h (in order) are exactly the signals of the messages its loop has
+   consumed (in order) followed by the signals of its messages still in flight (in order):
+   the k-th delivery is paired with the k-th consumption, every delivery is consumed at most
+   once, nothing is consumed that was not delivered. *)
+Theorem every_watcher_once_trace fx fs fr beh fuel c ops h :
+  let s := run fx fs fr beh fuel (init c) ops in
+  lost s = 0 ->
+  rev (delivered (tr s) h) = rev (consumed (tr s) h) ++ psig s h.
+Proof.
+  cbv zeta. intros Hl. destruct (pe_run fx fs fr beh fuel c ops) as (_&_&_&Q).
+  rewrite (Q Hl h). simpl. rewrite rev_app_distr, rev_involutive. reflexivity.
+Qed.
+
+(* ... and a consumption is a callback exactly when the handle still watches the signal of the
+   message at that moment (dispatch_one_callback); the callbacks on h are the ECb part of
+   [consumed], so there is no callback without a delivery *)
+Theorem callbacks_among_deliveries fx fs fr beh fuel c ops h :
+  let s := run fx fs fr beh fuel (init c) ops in
+  lost s = 0 ->
+  count_cb h (tr s) <= length (consumed (tr s) h) /\
+  length (consumed (tr s) h) + length (psig s h) = length (delivered (tr s) h).
+Proof.
+  cbv zeta. intros Hl. split.
+  - generalize (tr (run fx fs fr beh fuel (init c) ops)). induction l as [|e l IH]; simpl; auto.
+    destruct e; simpl; auto; destruct (_ =? h); simpl; lia.
+  - pose proof (every_watcher_once_trace fx fs fr beh fuel c ops h Hl) as E. cbv zeta in E.
+    apply (f_equal (@length nat)) in E. rewrite app_length, !rev_length in E. lia.
+Qed.
+
+(* a message is dropped (consumed without callback) only when its handle does not watch the
+   signal of the message at that moment *)
+Theorem drop_only_when_not_watching fx fs fr beh s h sig r :
+  In (EDrop h sig) (tr (process_msg fx fs fr beh s (h, sig) r)) -> ~ In (EDrop h sig) (tr s) ->
+  sig <> h_signum (get s h).
+Proof.
+  unfold process_msg. cbn [fst snd]. destruct (Nat.eqb_spec sig (h_signum (get s h))) as [E|E]; auto.
+  intros Hin Hn. exfalso. apply Hn.
+  destruct (after_cb_spec fr (log (script fx (cb_enter s h sig) (beh (cbcount s))) (ECbEnd h)) h sig r) as (_&_&_&_&f5&_).
+  cbv zeta in f5. rewrite f5 in Hin. cbn [log tr with_tr] in Hin. destruct Hin as [X|Hin]; [discriminate|].
+  revert Hin. generalize (beh (cbcount s)).
+  assert (G : forall os st, In (EDrop h sig) (tr (script fx st os)) -> In (EDrop h sig) (tr st)).
+  { induction os as [|o os IH]; intros st; simpl; auto. intros H. apply IH in H.
+    unfold api_snap in H. cbn [snap log tr with_tr] in H. destruct H as [X|H]; [discriminate|].
+    destruct (api_tr_kind fx st o) as (e&Ee&_). destruct (api_tr fx st o) as (e'&Ee'&_).
+    rewrite Ee in H. destruct H as [X|H]; auto.
+    exfalso. subst e. clear Ee'. revert Ee. destruct o; cbn [api];
+      repeat match goal with
+             | |- context [if ?b then _ else _] => destruct b
+             | |- context [let '(_, _) := ?p in _] => destruct p
+             end; cbn [log tr with_tr]; intros Ee; inversion Ee. }
+  intros os Hin. apply G in Hin. unfold cb_enter in Hin. cbn [snap log tr with_tr with_cbcount] in Hin.
+  destruct Hin as [X|[X|Hin]]; try discriminate. exact Hin.
+Qed.
